@@ -703,15 +703,21 @@ let rabuf file =
   let bad = function Panic t -> stop ("panic:" ^ tagname t) | IoErr -> stop "err" | OutOfFuel -> stop "hang" | Ok _ -> assert false in
   let num s = pos_of_decimal s in
   let signed s = if String.length s > 0 && s.[0] = '-' then (true, num (String.sub s 1 (String.length s - 1))) else (false, num s) in
+  (* the file-size limit (`limit <bytes>` / `unlimit`): every call goes through Cache_fault.RabufF.cstep_f, which is cstep when
+     there is no limit (cstep_f_none) and says what state a call refused by the limit leaves (`err:FileTooLarge`, the run goes on) *)
+  let lim : n option ref = ref None in
   let run_op (o : op) : string =
     match !cur with
     | None -> "nohandle"
     | Some c ->
-      (match cstep (Lazy.force rabuf_fuel) c o with
-       | Ok (c1, r) ->
+      (match RabufF.cstep_f !lim (Lazy.force rabuf_fuel) c o with
+       | RabufF.FOk (c1, r) ->
          cur := Some c1;
          (match r with RUnitC -> "ok" | RPos p -> decimal_of_n p | RData b -> show b | RCount k -> decimal_of_n k)
-       | e -> bad e) in
+       | RabufF.FErr c1 -> cur := Some c1; "err:FileTooLarge"
+       | RabufF.FStop (RabufF.SPanic t) -> bad (Panic t)
+       | RabufF.FStop RabufF.SIoErr -> bad IoErr
+       | RabufF.FStop RabufF.SOutOfFuel -> bad OutOfFuel) in
   (try
      while true do
        let line = String.trim (input_line ic) in
@@ -721,7 +727,7 @@ let rabuf file =
          let s =
            match a 0 with
            | "open" ->
-             (match !cur with Some c -> disk := close c | None -> ());
+             (match !cur with Some c -> disk := RabufF.close_f !lim c | None -> ());
              let r = match a 1 with
                | "cap" -> open_cap (num (a 2)) (num (a 3)) !disk
                | "permille" -> open_permille (num (a 2)) (num (a 3)) !disk
@@ -750,7 +756,9 @@ let rabuf file =
            | "prepare" -> run_op (OPrepare (num (a 1)))
            | "clear" -> run_op OClear
            | "fill" -> run_op OFill
-           | "close" -> (match !cur with Some c -> disk := close c; cur := None; "ok" | None -> "nohandle")
+           | "close" -> (match !cur with Some c -> disk := RabufF.close_f !lim c; cur := None; "ok" | None -> "nohandle")
+           | "limit" -> lim := Some (num (a 1)); "ok"
+           | "unlimit" -> lim := None; "ok"
            | "disk" -> sum (match !cur with Some c -> c.k_disk | None -> !disk)
            | other -> failwith ("rabuf op " ^ other) in
          print_endline s;
